@@ -164,16 +164,48 @@ def r183(ctx) -> None:
     f = cm.own_method('parse')
     if f is None:
         raise AnchorError('Commands.parse vanished')
-    upper = any(call_name(c) == 'upper' and 'atom' in txt(c.func.value)
-                for c in calls_in(f.node))
-    look = [c for c in calls_in(f.node, 'get') if 'commands' in txt(c.func)]
-    ok = upper and bool(look)
-    for c in look:
-        key_vals = resolve_local(f, c.args[0]) if c.args else []
-        # the key is built from the upper-cased parts
-        if not any('cmd_parts' in txt(v) or 'upper()' in txt(v)
-                   for v in key_vals):
-            ok = False
+    # every look-up of the command table: .get(k), table[k], k in table
+    keys = []
+    for x in walk_local(f.node):
+        if isinstance(x, ast.Call) and call_name(x) == 'get' and \
+                'commands' in txt(x.func.value) and x.args:
+            keys.append(x.args[0])
+        elif isinstance(x, ast.Subscript) and 'commands' in txt(x.value) \
+                and isinstance(x.ctx, ast.Load):
+            keys.append(x.slice)
+        elif isinstance(x, ast.Compare) and len(x.ops) == 1 and isinstance(
+                x.ops[0], (ast.In, ast.NotIn)) and \
+                'commands' in txt(x.comparators[0]):
+            keys.append(x.left)
+    def uppered(k) -> bool:
+        for v in resolve_local(f, k):
+            if isinstance(v, ast.Call) and call_name(v) == 'upper':
+                return True                      # X.upper()
+            if isinstance(v, ast.Call) and call_name(v) == 'join' and \
+                    v.args and isinstance(v.args[0], ast.Name):
+                # b' '.join(parts): every part appended is <atom>.upper()
+                lst = v.args[0].id
+                apps = [c for c in calls_in(f.node, 'append')
+                        if is_name(c.func.value, lst) and c.args]
+                if apps and all(
+                        any(isinstance(a, ast.Call)
+                            and call_name(a) == 'upper'
+                            for a in resolve_local(f, c.args[0]))
+                        for c in apps):
+                    return True
+        return False
+    ok = bool(keys) and all(uppered(k) for k in keys)
+    # ... and the name handed on to the argument parsers (they compare
+    # params.command_name with upper-case constants) is the upper-cased one
+    named = [kwarg(c, 'command_name') for c in calls_in(f.node, 'copy')
+             if kwarg(c, 'command_name') is not None]
+    R.check(bool(named) and all(uppered(k) for k in named), f, f.node,
+            'IMAP: params.command_name is the upper-cased command word',
+            'the command name stored in the parsing parameters keeps the '
+            'client\'s spelling: LiteralString._check_too_big compares it '
+            'with b"APPEND", so "append" gets the 4096-byte literal limit '
+            'while "APPEND" gets the append limit — the same command means '
+            'different things in different letter case')
     R.check(ok, f, f.node, 'IMAP: lookup key is built from upper-cased atoms',
             'the command word is looked up without upper-casing: "noop" and '
             '"NOOP" are different commands')
